@@ -22,8 +22,16 @@
 
     The key under which a definition is stored -- and the name the builder refers to -- is given
     by a [key_scheme] per kind of slot.  The schemes are REGENERATED from the f-strings of the
-    current source (GenMxlGenFacts.v). *)
-From Coq Require Import ZArith List Bool String Ascii.
+    current source (GenMxlGenFacts.v).
+
+    HOW a definition is stored under its key is the regenerated fact [gf_register]:
+      RegOverwrite   [functions[key] = (expr, args)]            (the snapshot: last writer wins)
+      RegFresh       [name = _register_fn(functions, key, expr, args)]  (fixes/C11-function-name-collisions.diff):
+                     the key is kept when it is free or holds the same positional function
+                     ([same_fn], the model of [_positional_fn(..) == _positional_fn(..)]), otherwise
+                     key_1, key_2, ... are tried; the emitted parameters are made pairwise different
+                     by [_parameter_names] (a repeated name keeps its FIRST position). *)
+From Coq Require Import ZArith List Bool String Ascii Decimal DecimalString.
 From MxlBase Require Import ListX.
 From Core Require Import Model.
 Import ListNotations.
@@ -35,12 +43,18 @@ Inductive key_scheme :=
 | KsRxnStoich      (* f"{k}_stoich_{stoich.fn_name}", k the reaction name *)
 | KsUnknown.       (* the extractor did not recognise the expression *)
 
+Inductive register_mode :=
+| RegOverwrite     (* functions[key] = (expr, args) *)
+| RegFresh         (* _register_fn: fresh name on a clash; _parameter_names: distinct parameters *)
+| RegUnknown.      (* the extractor did not recognise the way definitions are stored *)
+
 Record gen_facts := mkGenFacts {
   gf_var_key : key_scheme;     (* _codegen_variable *)
   gf_par_key : key_scheme;     (* _codegen_parameter *)
   gf_der_key : key_scheme;     (* derived loop *)
   gf_rxn_key : key_scheme;     (* reaction loop, rate function *)
   gf_sto_key : key_scheme;     (* reaction loop, computed coefficient *)
+  gf_register : register_mode; (* how a definition is stored under its key *)
   gf_codegen_shape : bool;     (* the remaining text of the three code generators and of
                                   sympy_to_python_fn is, statement for statement, the modelled one *)
   gf_symrepr_shape : bool      (* same for _fn_to_symbolic_repr / _to_symbolic_repr / generate_mxlpy_code *)
@@ -85,6 +99,44 @@ Section SymRepr.
 
   Definition fdict := list (string * (E * list name)).
 
+  (** [_positional_fn(e1, a1) == _positional_fn(e2, a2)]: SymPy's structural equality of the two
+      expressions after renaming every argument to its (first) position, and equal arity *)
+  Variable same_fn : E * list name -> E * list name -> bool.
+
+  (** f"{fn_name}_{i}" *)
+  Definition dec (i : nat) : string := NilEmpty.string_of_uint (Nat.to_uint i).
+  Definition cand (fn_name : string) (i : nat) : string :=
+    match i with O => fn_name | S _ => fn_name ++ "_" ++ dec i end.
+
+  (** the while loop of _register_fn; [None] = fuel exhausted (proved unreachable with
+      fuel = len(functions) + 1: MxlGenProofs.find_name_total) *)
+  Fixpoint find_name (fuel : nat) (fn_name : string) (i : nat) (p : E * list name) (functions : fdict)
+    : option string :=
+    match fuel with
+    | O => None
+    | S fuel' =>
+      let name := cand fn_name i in
+      match slookup name functions with
+      | None => Some name
+      | Some q => if same_fn q p then Some name else find_name fuel' fn_name (S i) p functions
+      end
+    end.
+
+  Definition fuel_marker : string := "<out of fuel>".
+
+  (** storing one definition: returns the name it is emitted under and the updated dict *)
+  Definition register (mode : register_mode) (fn_name : string) (p : E * list name) (functions : fdict)
+    : string * fdict :=
+    match mode with
+    | RegFresh =>
+      let name := match find_name (S (length functions)) fn_name 0 p functions with
+                  | Some n => n
+                  | None => fuel_marker
+                  end in
+      (name, sdset name p functions)
+    | _ => (fn_name, sdset fn_name p functions)
+    end.
+
   (** what the emitted builder chain says *)
   Inductive valref := VNum (v : Z) | VInit (key : string) (args : list name).
   Inductive coefref := CNum (q : Z) | CStrRef (n : name) | CDerRef (key : string) (args : list name).
@@ -93,7 +145,8 @@ Section SymRepr.
   | AddParameter (k : name) (v : valref)
   | AddDerived (k : name) (key : string) (args : list name)
   | AddReaction (k : name) (key : string) (args : list name) (st : list (name * coefref)).
-  Record code := mkCode { c_defs : fdict; c_ops : list addop }.
+  (* [c_renamed]: the emitted parameters went through _parameter_names (pairwise different) *)
+  Record code := mkCode { c_defs : fdict; c_ops : list addop; c_renamed : bool }.
 
   Definition key_of (ks : key_scheme) (rxn : name) (fn_name : string) : string :=
     match ks with
@@ -105,78 +158,75 @@ Section SymRepr.
 
   (** _codegen_variable / _codegen_parameter: the SymbolicFn branch stores the definition under
       the scheme's key and refers to it by the same local [fn_name]; the number branch prints it *)
-  Definition codegen_value (ks : key_scheme) (k : name) (v : symval) (functions : fdict)
+  Definition codegen_value (rm : register_mode) (ks : key_scheme) (k : name) (v : symval) (functions : fdict)
     : valref * fdict :=
     match v with
     | SVInit init =>
-      let fn_name := key_of ks k (sf_name init) in
-      (VInit fn_name (sf_args init), sdset fn_name (sf_expr init, sf_args init) functions)
+      let '(fn_name, f1) := register rm (key_of ks k (sf_name init)) (sf_expr init, sf_args init) functions in
+      (VInit fn_name (sf_args init), f1)
     | SVNum value => (VNum value, functions)
     end.
 
   (** for k, var in model.variables.items(): variable_source.append(_codegen_variable(...)) *)
-  Fixpoint gen_variables (ks : key_scheme) (l : list (name * symval)) (functions : fdict)
+  Fixpoint gen_variables (rm : register_mode) (ks : key_scheme) (l : list (name * symval)) (functions : fdict)
     : list addop * fdict :=
     match l with
     | [] => ([], functions)
     | (k, v) :: rest =>
-      let '(vr, f1) := codegen_value ks k v functions in
-      let '(ops, f2) := gen_variables ks rest f1 in
+      let '(vr, f1) := codegen_value rm ks k v functions in
+      let '(ops, f2) := gen_variables rm ks rest f1 in
       (AddVariable k vr :: ops, f2)
     end.
 
-  Fixpoint gen_parameters (ks : key_scheme) (l : list (name * symval)) (functions : fdict)
+  Fixpoint gen_parameters (rm : register_mode) (ks : key_scheme) (l : list (name * symval)) (functions : fdict)
     : list addop * fdict :=
     match l with
     | [] => ([], functions)
     | (k, v) :: rest =>
-      let '(vr, f1) := codegen_value ks k v functions in
-      let '(ops, f2) := gen_parameters ks rest f1 in
+      let '(vr, f1) := codegen_value rm ks k v functions in
+      let '(ops, f2) := gen_parameters rm ks rest f1 in
       (AddParameter k vr :: ops, f2)
     end.
 
-  (** for k, fn in model.derived.items(): functions[fn.fn_name] = (fn.expr, fn.args); emit *)
-  Fixpoint gen_derived (ks : key_scheme) (l : list (name * symfn)) (functions : fdict)
+  (** for k, fn in model.derived.items(): store (fn.expr, fn.args) under fn.fn_name; emit *)
+  Fixpoint gen_derived (rm : register_mode) (ks : key_scheme) (l : list (name * symfn)) (functions : fdict)
     : list addop * fdict :=
     match l with
     | [] => ([], functions)
     | (k, fn) :: rest =>
-      let fn_name := key_of ks k (sf_name fn) in
-      let f1 := sdset fn_name (sf_expr fn, sf_args fn) functions in
-      let '(ops, f2) := gen_derived ks rest f1 in
+      let '(fn_name, f1) := register rm (key_of ks k (sf_name fn)) (sf_expr fn, sf_args fn) functions in
+      let '(ops, f2) := gen_derived rm ks rest f1 in
       (AddDerived k fn_name (sf_args fn) :: ops, f2)
     end.
 
   (** for var, stoich in rxn.stoichiometry.items(): three branches *)
-  Fixpoint gen_stoich (ks : key_scheme) (k : name) (l : list (name * symcoef)) (functions : fdict)
+  Fixpoint gen_stoich (rm : register_mode) (ks : key_scheme) (k : name) (l : list (name * symcoef)) (functions : fdict)
     : list (name * coefref) * fdict :=
     match l with
     | [] => ([], functions)
     | (var, stoich) :: rest =>
       match stoich with
       | SCFn s =>
-        let fn_name := key_of ks k (sf_name s) in
-        let f1 := sdset fn_name (sf_expr s, sf_args s) functions in
-        let '(st, f2) := gen_stoich ks k rest f1 in
+        let '(fn_name, f1) := register rm (key_of ks k (sf_name s)) (sf_expr s, sf_args s) functions in
+        let '(st, f2) := gen_stoich rm ks k rest f1 in
         ((var, CDerRef fn_name (sf_args s)) :: st, f2)
       | SCStr n =>
-        let '(st, f2) := gen_stoich ks k rest functions in ((var, CStrRef n) :: st, f2)
+        let '(st, f2) := gen_stoich rm ks k rest functions in ((var, CStrRef n) :: st, f2)
       | SCNum q =>
-        let '(st, f2) := gen_stoich ks k rest functions in ((var, CNum q) :: st, f2)
+        let '(st, f2) := gen_stoich rm ks k rest functions in ((var, CNum q) :: st, f2)
       end
     end.
 
   (** for k, rxn in model.reactions.items(): rate function first, then the coefficients *)
-  Fixpoint gen_reactions (ksr kss : key_scheme) (l : list (name * symrxn)) (functions : fdict)
+  Fixpoint gen_reactions (rm : register_mode) (ksr kss : key_scheme) (l : list (name * symrxn)) (functions : fdict)
     : list addop * fdict :=
     match l with
     | [] => ([], functions)
     | (k, rxn) :: rest =>
       let fn := sr_fn rxn in
-      let fn_name := key_of ksr k (sf_name fn) in
-      let f1 := sdset fn_name (sf_expr fn, sf_args fn) functions in
-      let '(st, f2) := gen_stoich kss k (sr_st rxn) f1 in
-      let '(ops, f3) := gen_reactions ksr kss rest f2 in
+      let '(fn_name, f1) := register rm (key_of ksr k (sf_name fn)) (sf_expr fn, sf_args fn) functions in
+      let '(st, f2) := gen_stoich rm kss k (sr_st rxn) f1 in
+      let '(ops, f3) := gen_reactions rm ksr kss rest f2 in
       (AddReaction k fn_name (sf_args fn) st :: ops, f3)
     end.
 
@@ -184,11 +234,13 @@ Section SymRepr.
       the definitions (dict order) and the chain variables | parameters | derived | reactions *)
   Definition generate_from_symrepr (F : gen_facts) (model : symrepr) : code :=
     let functions : fdict := [] in
-    let '(variable_source, f1) := gen_variables (gf_var_key F) (sy_var model) functions in
-    let '(parameter_source, f2) := gen_parameters (gf_par_key F) (sy_par model) f1 in
-    let '(derived_source, f3) := gen_derived (gf_der_key F) (sy_der model) f2 in
-    let '(reactions_source, f4) := gen_reactions (gf_rxn_key F) (gf_sto_key F) (sy_rxn model) f3 in
-    mkCode f4 (variable_source ++ parameter_source ++ derived_source ++ reactions_source).
+    let rm := gf_register F in
+    let '(variable_source, f1) := gen_variables rm (gf_var_key F) (sy_var model) functions in
+    let '(parameter_source, f2) := gen_parameters rm (gf_par_key F) (sy_par model) f1 in
+    let '(derived_source, f3) := gen_derived rm (gf_der_key F) (sy_der model) f2 in
+    let '(reactions_source, f4) := gen_reactions rm (gf_rxn_key F) (gf_sto_key F) (sy_rxn model) f3 in
+    mkCode f4 (variable_source ++ parameter_source ++ derived_source ++ reactions_source)
+           (match rm with RegFresh => true | _ => false end).
 End SymRepr.
 
 Arguments mkSymFn {E}.
@@ -211,3 +263,4 @@ Arguments sy_rxn {E}.
 Arguments mkCode {E}.
 Arguments c_defs {E}.
 Arguments c_ops {E}.
+Arguments c_renamed {E}.
